@@ -379,7 +379,12 @@ def gen_cases(run, seeds):
         if t in ("hex", "srec", "txt"):
             muts = list(text_mutations(t, data))
             if quick:
-                muts = rng.sample(muts, min(len(muts), 30 if pn == "msp430" else 6))
+                # the whole-file specials and the count-field edits of the first record are always kept (deterministic part)
+                keep = [m for m in muts if pn == "msp430" and (m[0].startswith("line/") and m[0] not in ("line/del", "line/dup", "line/long", "line/nonl")
+                                                                or (m[0].startswith("rec/count") and m[1] == 0))]
+                muts = keep + rng.sample(muts, min(len(muts), 30 if pn == "msp430" else 6))
+            elif pn != "msp430" and len(muts) > 250:
+                muts = rng.sample(muts, 250)
             for label, li, new in muts:
                 add(t, pn, new, label, rng.choice(kinds), pick_cpu(pn), region=li // 4)
         else:
@@ -388,8 +393,8 @@ def gen_cases(run, seeds):
                 muts = rng.sample(muts, min(len(muts), 40 if pn in ("msp430", "mips") else 8))
             elif pn in ("msp430", "mips") and t != "bin":
                 muts = list(field_mutations(data))
-                if len(muts) > 3000:
-                    muts = rng.sample(muts, 3000)
+                if len(muts) > 1000:
+                    muts = rng.sample(muts, 1000)
             else:
                 muts = list(field_mutations(data))
                 muts = rng.sample(muts, min(len(muts), 200))
